@@ -76,13 +76,14 @@ def frames(rep):
             acc = [list(p) for p in f['access']]
             unserial = sum(1 for w in f['worlds'] if not any(p[0] == w for p in acc))
             rep.violation({'kind': 'frame', 'logic': f['logic'], 'clause': f['clause'],
-                           'access': acc, 'nworlds': len(f['worlds']), 'successorless_worlds_in_input': unserial}, f)
+                           'access': acc, 'nworlds': len(f['worlds']), 'successorless_worlds_in_input': unserial,
+                           'bare': f['bare'], 'split': f['split']}, f)
     if total != n:
         raise C.MachineryError(f'C04 frames: {n} cases generated, {total} validated')
     for line in open(d / 'obs3.ndjson'):
         c = json.loads(line)
         if len(c['access']) == 3:
-            rep.sample({k: c[k] for k in ('logic', 'worlds', 'access', 'result')})
+            rep.sample({k: c[k] for k in ('logic', 'worlds', 'access', 'results')})
             break
     return n
 
